@@ -1030,14 +1030,16 @@ CRASHY = [
 
 def draw_run_cfg(rng, focus, tier):
     thorough = tier == "thorough"
-    spec_cfg = specs.draw_cfg(rng, "C04")
-    spec_cfg.update(
-        n_clips=rng.choice([2, 3, 4]),
-        n_sound_events=rng.choice([3, 5, 8]),
-        n_per_clip=rng.choice([1, 2, 4, 6]),
-        n_recordings=rng.choice([1, 2]),
-        n_tags=rng.choice([1, 3, 6]),
-    )
+    spec_cfg = specs.draw_cfg(rng, "C04", tier)
+    sizes = {
+        "n_clips": rng.choice([2, 3, 4]),
+        "n_sound_events": rng.choice([3, 5, 8]),
+        "n_per_clip": rng.choice([1, 2, 4, 6]),
+        "n_recordings": rng.choice([1, 2]),
+        "n_tags": rng.choice([1, 3, 6]),
+    }
+    if not spec_cfg.get("large"):
+        spec_cfg.update(sizes)
     return {
         "focus": "C04",
         "n_nodes": rng.choice([1, 2, 3]),
